@@ -770,8 +770,13 @@ class SharesManager(BaseManager):
         file_count = sum(
             len(directory.items) for directory in self._shared_directories
         )
+        # Items moved in from a nested shared directory that was removed keep the
+        # sub-directory relative to the directory they were scanned in
         dir_count = sum(
-            len(set(item.subdir for item in directory.items))
+            len(set(
+                (item.shared_directory.absolute_path, item.subdir)
+                for item in directory.items
+            ))
             for directory in self._shared_directories
         )
         return dir_count, file_count
